@@ -79,8 +79,14 @@ package immutable
 //@   requires r != nil && ctx != nil && sr != nil
 //@   call (*FirstLastReader).ReadMinFromPreAgg
 //@     requires r.first && ctx.tr.Min <= sr[0]
+//@     frame nothing
 //@   call (*FirstLastReader).ReadMaxFromPreAgg
 //@     requires !r.first && ctx.tr.Max >= sr[1]
+//@     frame nothing
+// The statistics are per CHUNK, the test is per segment: the chunk-wide first (last) row is this segment's answer only
+// if it IS the segment's first (last) row, i.e. its time equals the segment's edge - an earlier (later) time belongs
+// to a segment the query range skips.
+//@   ensures [chunk_extreme_only_if_it_is_the_segment_edge] result2 ==> (old(r.first) ==> result1 == old(sr[0])) && (!old(r.first) ==> result1 == old(sr[1]))
 
 // first()/last() without reading the time column: row 0 (resp. the last row) of a segment without nulls is the
 // answer only if the segment starts (resp. ends) inside the query range, and the time reported with the value
@@ -375,3 +381,23 @@ package immutable
 //@   call (*fileLoadContext).update
 //@     set upd = upd || arg0 == f
 //@   ensures [every_file_counted] ok ==> upd
+
+// ================================================================ C03: which out-of-order files a merge round takes
+//@ prop C03 C02
+// Out-of-order files are listed oldest first and a newer file overrides an older one. A merge round therefore consumes
+// an oldest-first PREFIX of that list (the k-th file it takes is the k-th of the list): merging a younger file into the
+// ordered data while an older one stays out of order lets the older file override the younger one's values afterwards.
+//@ func buildNormalMergeContext
+//@   ghost n int = 0
+//@   call (*MergeContext).UpdateLevel
+//@     frame nothing
+//@   call .FileNameMerge
+//@     frame nothing
+//@   call (*MergeContext).Limited
+//@     frame nothing
+//@   call (*MergeContext).AddUnordered
+//@     requires [oldest_first_prefix] n == rangeindex
+//@     set n = n + 1
+//@     frame nothing
+//@   loop 1
+//@     invariant n == rangeindex + 1
